@@ -121,12 +121,16 @@ func init() {
 				}
 				c.Stat("pair:random-doh")
 			case k < 9:
-				a = "N;" + hx([]byte(ips[r.Intn(len(ips))]+":53"))
-				b = "N;" + hx([]byte(ips[r.Intn(len(ips))]+":53"))
+				// plain-DNS servers as host:port - the same address on another port, and the same link-local address on
+				// another interface (zone), are other servers
+				d53 := []string{"192.0.2.1:53", "192.0.2.1:5353", "192.0.2.2:53", "[2001:db8::1]:53", "[2001:db8::2]:53",
+					"[fe80::1%eth0]:53", "[fe80::1%wlan0]:53", "[fe80::1%eth0]:5353", "[fe80::2%eth0]:53", "45.90.28.0:53"}
+				a = "N;" + hx([]byte(d53[r.Intn(len(d53))]))
+				b = "N;" + hx([]byte(d53[r.Intn(len(d53))]))
 				c.Stat("pair:dns53")
 			default:
 				a = doh()
-				b = "N;" + hx([]byte(ips[r.Intn(len(ips))]+":53"))
+				b = "N;" + hx([]byte(ips[r.Intn(3)]+":53"))
 				c.Stat("pair:cross-type")
 			}
 			one("epeq " + a + " " + b)
